@@ -203,7 +203,7 @@ def run_scenario_cli(sc):
     import tempfile
     from pathlib import Path
     from harness import cli_engine
-    t = {"tid": sc["tid"], "cls": "route-cli/" + sc["cls"], "tn": sc["tn"], "td": sc["td"], "naming": sc.get("naming", ""), "valid": sc["valid"],
+    t = {"tid": sc["tid"], "cls": "route-cli/" + sc["cls"] + ("/python-O" if sc.get("optimize") else ""), "tn": sc["tn"], "td": sc["td"], "naming": sc.get("naming", ""), "valid": sc["valid"],
          "input": sc["input"], "map": sc["map"], "haps": sc.get("haps", ["" for _ in sc["input"]]), "style": sc.get("style", "plain"), "route": "cli", "status": "ok", "out": [],
          "stats": {"cuts": 0, "breaks": 0, "joins": 0}, "msg": ""}
     d = Path(tempfile.mkdtemp(prefix="clis-", dir=sc.get("root") or None))
@@ -241,7 +241,11 @@ def run_scenario_cli(sc):
         args = ["-a", d / "in.agp", "-p", d / "p.agp", "-o", out / "x.1.agp", "--no-write-log"]
         if sc.get("prefix"):
             args += ["--autosome-prefix", sc["prefix"]]
-        r = C.guarded(lambda _: cli_engine.run_inproc(args), None, 30.0)
+        if sc.get("optimize"):
+            # a fresh interpreter with PYTHONOPTIMIZE=1 (assert statements compiled away): what the tool guarantees must not rest on asserts
+            r = C.guarded(lambda _: cli_engine.run_subproc(args, env={"PYTHONOPTIMIZE": "1"}), None, 150.0)
+        else:
+            r = C.guarded(lambda _: cli_engine.run_inproc(args), None, 30.0)
         if r[0] == "hang":
             t["status"] = "hang"
         elif r[0] == "exc":
